@@ -15,7 +15,7 @@ import boot  # noqa
 import common
 import coqcases
 import corpus
-from coqfmt import zraw, b, lst, tup
+from coqfmt import zraw, b, lst, tup, opt
 from coqmol import mol_term, atom_term
 
 replay = common.generic_replay
@@ -364,6 +364,41 @@ class Searcher:
                               {'smiles': smi, 'mapping': f}, dict(ao2), {f[n]: r for n, r in ao.items()}, 'renumbering by remap()',
                               replay_py=f"from chython import smiles; m=smiles({smi!r}); print(m.atoms_order); m.remap({f!r}); print(m.atoms_order)")
 
+    def traversal_oracle(self, smi, m):
+        """with discrete (injective) weights the written atom order must be the depth-first preorder that starts at the
+        smallest weight and visits neighbours by increasing weight, component after component (own 10-line reference)"""
+        ck = self.ck
+        for stereo, w in ((True, m._chiral_morgan), (False, m.atoms_order)):
+            if len(set(w.values())) != len(w) or not len(m):
+                ck.count('search:traversal-oracle:tied-weights-skipped')
+                continue
+            if stereo:
+                got = list(m.smiles_atoms_order)
+            else:
+                got = list(m.__format__('!s', _return_order=True)[1])
+            left = set(m._atoms)
+            exp = []
+            while left:
+                start = min(left, key=w.get)
+                stack = [start]
+                seen = set()
+                # recursive preorder, children by increasing weight
+                def visit(n):
+                    seen.add(n)
+                    exp.append(n)
+                    for c in sorted(m._bonds[n], key=w.get):
+                        if c not in seen:
+                            visit(c)
+                import sys
+                sys.setrecursionlimit(max(sys.getrecursionlimit(), 10000))
+                visit(start)
+                left -= seen
+            ck.count('search:traversal-oracle')
+            if got != exp:
+                ck.counterexample(f'traversal-order:{smi}', 'with discrete weights the written atom order is not the depth-first preorder by '
+                                  'increasing weight', {'smiles': smi, 'stereo_weights': stereo, 'weights': dict(w)}, got, exp,
+                                  'own reference DFS', replay_py=f"from chython import smiles; m=smiles({smi!r}); print(m.smiles_atoms_order, m._chiral_morgan)")
+
     def one(self, smi, rng, n_renum=2, n_spell=2, n_rdkit=2, heavy=True):
         from chython import smiles
         from rdkit import Chem
@@ -380,6 +415,7 @@ class Searcher:
         ck.count(f'search:mol:stereo_elements={min(ns, 4)}')
         ck.count(f'search:mol:components={min(m.connected_components_count, 3)}')
         self.morgan_oracle(smi, m, rng)
+        self.traversal_oracle(smi, m)
         # ---- (a) renumbering of the molecule as read
         for _ in range(n_renum):
             m2 = corpus.renumber(m, rng)
@@ -548,6 +584,27 @@ def search(ck, seeds=None):
             continue
         mine = own_classes(m, with_ring=False)
         ck.count('oracle:classes==rdkit' if len(set(mine.values())) == len(set(rk)) else 'oracle:classes!=rdkit')
+    # == and hash between DIFFERENT structures follow the strings too (neighbouring pool members, stereo-stripped copies)
+    prev = None
+    for smi in SPECIAL + st[:40]:
+        try:
+            m = smiles(smi)
+        except Exception:
+            continue
+        others = [(prev[0], prev[1])] if prev else []
+        if n_stereo(m):
+            c = m.copy()
+            c.clean_stereo()
+            others.append((smi + ' without stereo', c))
+        for osmi, o in others:
+            ck.count('search:eq-coherence-pair')
+            same = str(m) == str(o)
+            if (m == o) != same or (o == m) != same or (same and hash(m) != hash(o)) or (m != o) == same:
+                ck.counterexample(f'eq-hash-incoherent:pair:{smi}', '== / != / hash of two molecules disagree with their canonical strings',
+                                  {'a': smi, 'b': osmi}, {'str': [str(m), str(o)], 'eq': m == o, 'hash_eq': hash(m) == hash(o)},
+                                  'eq <-> equal strings, equal -> equal hash', 'definition of __eq__/__hash__',
+                                  replay_py=f"from chython import smiles; a=smiles({smi!r}); print(str(a), hash(a))")
+        prev = (smi, m)
     # generated small molecules: renumbering only (no reader involved)
     for m in small_molecules(rng, 150 if quick else 3000):
         smi = format(m, 'h')
@@ -558,6 +615,271 @@ def search(ck, seeds=None):
                                                          'bonds': [(n, k, int(bd)) for n, k, bd in m.bonds()]})
     ck.extra['gap_skips'] = S.gap_hits
     return S
+
+
+# =============================================================================================================
+# correspondence: real code vs the Coq model (exact ints)
+
+COQ_EXTRA = '''From Model Require Import PyHash Graph Morgan MorganFast Writer.
+Import ListNotations.
+Open Scope Z_scope.
+Definition iadj_eqb (a b : iadj) : bool := list_eqb (pair_eqb Z.eqb (list_eqb (pair_eqb Z.eqb Z.eqb))) a b.
+Definition rank_res (r : pyres labels) : pyres labels := match r with Ok a => Ok (dense_rank a) | Err e => Err e end.
+(* _morgan on raw dicts: labels before the ranking, then the result (morgan = rank_res of morgan_labels, by definition) *)
+Definition mg_ok (atoms : labels) (adj : iadj) (exp_labels exp : pyres labels) : bool :=
+  let r := fast_morgan_labels atoms adj in res_eqb r exp_labels && res_eqb (rank_res r) exp && res_eqb (fast_morgan atoms adj) exp.
+(* a molecule: hash(atom) for every atom, int_adjacency, atoms_order *)
+Definition ao_ok (rings : list Z) (g : mol) (hashes : labels) (ia : iadj) (exp : pyres labels) : bool :=
+  labels_eqb (fast_atom_labels rings g) hashes && iadj_eqb (int_adjacency g) ia && res_eqb (fast_atoms_order rings g) exp.
+(* the same with the labels of the last refinement round (molecules with at least two atoms) *)
+Definition aol_ok (rings : list Z) (g : mol) (exp_labels exp : pyres labels) : bool :=
+  let r := fast_morgan_labels (fast_atom_labels rings g) (int_adjacency g) in
+  res_eqb r exp_labels && res_eqb (rank_res r) exp && (2 <=? Z.of_nat (List.length (m_atoms g))).
+(* the start atom and the first child of the writer model (Model.Writer: key_start / key_child / min_by / sort_by / bfs) with
+   the real weights w and the observed order as tie-break priority *)
+Definition zfun (l : list (Z * Z)) (n : Z) : Z := match zget l n with Some x => x | None => 0 end.
+Definition wk_ok (g : mol) (w tb : list (Z * Z)) (start : Z) (second : option Z) : bool :=
+  let all := ids g in
+  let seen := bfs g (S (List.length all)) [(start, 1)] [(start, 0)] in
+  option_eqb Z.eqb (min_by (key_start (zfun w) (zfun tb) default_opts all) all) (Some start) &&
+  option_eqb Z.eqb (hd_error (sort_by (key_child (zfun w) (zfun tb) default_opts all seen) (nbr_ids g start))) second.
+(* the whole writer model on a small molecule: canonical string and written order, with the real weights (_chiral_morgan) *)
+Definition wr_ok (g : mol) (w tb : list (Z * Z)) (tabs : stabs) (text : string) (order : list Z) : bool :=
+  match smiles_text g (zfun w) (zfun tb) default_opts tabs with
+  | Ok (txt, ord) => String.eqb txt text && list_eqb Z.eqb ord order
+  | Err _ => false
+  end.
+(* the Uint63 hash against the arbitrary-precision model of PyHash.v *)
+Definition h_ok (l : list Z) (v : Z) : bool := (hash63 l =? v) && (hash_ztuple l =? v).
+'''
+
+
+def zmap(d):
+    return lst([tup(zraw(k), zraw(v)) for k, v in d.items()])
+
+
+def env_term(e):
+    return f'({zraw(e[0])}, {zraw(e[1])}, {opt(e[2], zraw)}, {opt(e[3], zraw)})'
+
+
+def pair_term(p):
+    return f'({zraw(p[0])}, {zraw(p[1])})'
+
+
+def tabs_term(m):
+    """the stereo registries the writer model takes as input (Writer.stabs)"""
+    if not n_stereo(m):
+        return 'no_stabs'
+    return ('(mkStabs ' +
+            lst([tup(zraw(n), lst(list(v), zraw)) for n, v in m.stereogenic_tetrahedrons.items()]) + ' ' +
+            lst([tup(zraw(n), env_term(v)) for n, v in m.stereogenic_allenes.items()]) + ' ' +
+            lst([tup(zraw(n), pair_term(v)) for n, v in m._stereo_allenes_terminals.items()]) + ' ' +
+            lst([tup(pair_term(k), env_term(v)) for k, v in m.stereogenic_cis_trans.items()]) + ' ' +
+            lst([tup(zraw(n), pair_term(v)) for n, v in m._stereo_cis_trans_centers.items()]) + ' ' +
+            lst([tup(zraw(n), pair_term(v)) for n, v in m._stereo_cis_trans_terminals.items()]) + ' ' +
+            lst([tup(zraw(n), zraw(v)) for n, v in m._stereo_cis_trans_counterpart.items()]) + ')')
+
+
+def cstr(text):
+    assert all(32 <= ord(c) < 127 for c in text), repr(text)
+    return '"' + text.replace('"', '""') + '"%string'
+
+
+def adj_term(bonds):
+    return lst([tup(zraw(n), zmap(ms)) for n, ms in bonds.items()])
+
+
+class MorganSpy:
+    """observes the labels of the last refinement round: they are the argument of the one `sorted(..., key=...)` call of
+    `_morgan` (the ranking); installed as a module global of chython.algorithms.morgan, removed afterwards"""
+
+    def __enter__(self):
+        import chython.algorithms.morgan as mg
+        self.mg = mg
+        self.last = None
+        self.rounds = 0
+
+        def spy_sorted(it, key=None):
+            if key is None:
+                self.rounds += 1
+                return sorted(it)
+            it = list(it)
+            self.last = it
+            return sorted(it, key=key)
+        mg.sorted = spy_sorted
+        return self
+
+    def __exit__(self, *a):
+        del self.mg.sorted
+
+    def call(self, atoms, bonds):
+        """returns (result term, labels term, result value or None)"""
+        self.last = None
+        try:
+            r = self.mg._morgan(dict(atoms), {n: dict(ms) for n, ms in bonds.items()})
+        except KeyError:
+            return 'Err KeyError', 'Err KeyError', None
+        except Exception:  # the model knows no other outcome
+            return 'Err OtherError', 'Err OtherError', None
+        if self.last is None:   # the ranking no longer goes through sorted(..., key=...): nothing observed, the case fails
+            return f'Ok {zmap(r)}', 'Err OtherError', r
+        return f'Ok {zmap(r)}', f'Ok {lst([tup(zraw(k), zraw(v)) for k, v in self.last])}', r
+
+
+def shuffled_view(m, rng):
+    """the molecule with the items of _atoms, _bonds and of every neighbour dict in another insertion order (raw dicts of a
+    copy: enough for Morgan, which does not look at stereo)"""
+    c = m.copy()
+    ks = list(c._atoms)
+    rng.shuffle(ks)
+    c._atoms = {n: c._atoms[n] for n in ks}
+    ks = list(c._bonds)
+    rng.shuffle(ks)
+    nb = {}
+    for n in ks:
+        ms = list(c._bonds[n])
+        rng.shuffle(ms)
+        nb[n] = {x: c._bonds[n][x] for x in ms}
+    c._bonds = nb
+    c.__dict__.clear()
+    return c
+
+
+def mol_case(spy, m, with_labels):
+    ring = [n for n, a in m.atoms() if a.in_ring]
+    hashes = {n: hash(a) for n, a in m.atoms()}
+    ia = m.int_adjacency
+    m.__dict__.pop('atoms_order', None)
+    spy.last = None
+    ao = m.atoms_order
+    exp = f'(Ok {zmap(ao)})'
+    if with_labels and len(m) > 1:
+        labels = '(Err OtherError)' if spy.last is None else f'(Ok {lst([tup(zraw(k), zraw(v)) for k, v in spy.last])})'
+        return f'aol_ok {lst(ring, zraw)} {mol_term(m)} {labels} {exp}', ao
+    return f'ao_ok {lst(ring, zraw)} {mol_term(m)} {zmap(hashes)} {adj_term(ia)} {exp}', ao
+
+
+def raw_dict_cases(spy, rng, count):
+    """_morgan on raw dicts: well-formed random graphs with few initial colours, and malformed ones (missing keys, extra
+    keys, empty, asymmetric adjacency, huge / negative labels)"""
+    out = []
+    for i in range(count):
+        n = rng.randint(0, 8)
+        keys = rng.sample(range(-3, 40), n)
+        big = rng.random() < .3
+        atoms = {k: (rng.choice([-(1 << 62), (1 << 61) - 1, (1 << 61) - 2, -1, -2, 1 << 63, 0, 7]) if big else rng.randint(1, 3)) for k in keys}
+        bonds = {k: {} for k in keys}
+        for a, c in itertools.combinations(keys, 2):
+            if rng.random() < .35:
+                o = rng.choice([1, 1, 2, 3, 4, 8])
+                bonds[a][c] = o
+                bonds[c][a] = o
+        kind = 'wf'
+        r = rng.random()
+        if r < .12 and keys:          # a neighbour that is not an atom -> KeyError
+            bonds[rng.choice(keys)][99] = 1
+            kind = 'ghost-neighbour'
+        elif r < .24 and keys:        # an adjacency row that is not an atom -> KeyError
+            bonds[77] = {}
+            kind = 'ghost-row'
+        elif r < .36 and keys:        # an atom without adjacency row: it silently disappears after round 1
+            del bonds[rng.choice(keys)]
+            kind = 'missing-row'
+        elif r < .44 and keys:        # asymmetric adjacency
+            a = rng.choice(keys)
+            for c in list(bonds[a]):
+                del bonds[a][c]
+                break
+            kind = 'asymmetric'
+        elif r < .5:
+            ks = list(bonds)
+            rng.shuffle(ks)
+            bonds = {k: bonds[k] for k in ks}
+            kind = 'row-order'
+        res, labels, _ = spy.call(atoms, bonds)
+        out.append((f'mg_ok {zmap(atoms)} {adj_term(bonds)} ({labels}) ({res})', ('raw', kind, atoms, bonds, res)))
+    return out
+
+
+def correspondence(ck):
+    from chython import smiles, MoleculeContainer
+    rng = random.Random(f'{ck.seed}:c01-corr')
+    quick = ck.tier == 'quick'
+    cases, meta = [], []
+    suspects = []
+    n_writer = 0
+    pool = SPECIAL + GAP_EXAMPLES + corpus.sample(corpus.lipo(), 110 if quick else 1200, ck.seed, 'c01-corr')
+    mols = []
+    for smi in pool:
+        try:
+            m = smiles(smi)
+        except Exception:
+            continue
+        mols.append((smi, m))
+    for m in small_molecules(rng, 120 if quick else 1500):
+        mols.append((format(m, 'h'), m))
+    with MorganSpy() as spy:
+        for c, mt in raw_dict_cases(spy, rng, 400 if quick else 4000):
+            cases.append(c)
+            meta.append(mt)
+            ck.case(mt, nontrivial=mt[4].startswith('Ok') and len(mt[2]) > 2)
+            ck.count(f'corr:raw:{mt[1]}:{"Ok" if mt[4].startswith("Ok") else mt[4]}')
+        for smi, m in [('', MoleculeContainer())] + mols:
+            variants = [('as-read', m)]
+            if len(m) > 1:
+                variants.append(('renumbered', corpus.renumber(m, rng)))
+                variants.append(('shuffled', shuffled_view(corpus.renumber(m, rng), rng)))
+            ref = None
+            for i, (how, v) in enumerate(variants):
+                c, ao = mol_case(spy, v, with_labels=(i == 1))
+                cases.append(c)
+                meta.append(('mol', how, smi, dict(ao)))
+                ck.case(('corr', smi, how, tuple(v._atoms)), nontrivial=len(v) > 2)
+                ck.count(f'corr:mol:{how}')
+                cls = sorted(ao.values())
+                if ref is None:
+                    ref = cls
+                elif cls != ref:
+                    suspects.append(smi)
+            # the writer's first two choices
+            for how, v in variants[-2:-1]:
+                if len(v) and len(v) <= 40:
+                    order = list(v.smiles_atoms_order)
+                    w = v._chiral_morgan
+                    second = order[1] if len(order) > 1 and order[1] in v._bonds[order[0]] else None
+                    cases.append(f'wk_ok {mol_term(v)} {zmap(w)} {zmap({n: i for i, n in enumerate(order)})} {zraw(order[0])} '
+                                 f'{"None" if second is None else "(Some " + zraw(second) + ")"}')
+                    meta.append(('writer-keys', how, smi, order[:2]))
+                    ck.case(('corr-wk', smi, how, tuple(order[:2])), nontrivial=len(v) > 2)
+                    ck.count('corr:writer-keys')
+            # the whole writer model (canonical string + order) on small molecules
+            if 0 < len(m) <= 24 and n_writer < (60 if quick else 600):
+                n_writer += 1
+                for how, v in variants[:2]:
+                    order = list(v.smiles_atoms_order)
+                    cases.append(f'wr_ok {mol_term(v)} {zmap(v._chiral_morgan)} {zmap({n: i for i, n in enumerate(order)})} {tabs_term(v)} '
+                                 f'{cstr(str(v))} {lst(order, zraw)}')
+                    meta.append(('writer', how, smi, str(v)))
+                    ck.case(('corr-wr', smi, how, tuple(order)), nontrivial=len(v) > 2)
+                    ck.count('corr:writer-full')
+            ck.count(f'corr:mol:atoms<={min(60, -(-len(m) // 10) * 10)}')
+            ck.count('corr:mol:classes-discrete' if len(set(m.atoms_order.values())) == len(m) else 'corr:mol:classes-tied')
+    # the two hash models against the interpreter on random tuples (boundaries of the int hash included)
+    edge = [0, 1, -1, -2, (1 << 61) - 1, (1 << 61) - 2, 1 << 61, -(1 << 61) + 1, -(1 << 61), (1 << 63) - 1, -(1 << 63), 1 << 63, 1 << 64, -(1 << 64) - 1]
+    for i in range(150 if quick else 2000):
+        t = tuple((rng.choice(edge) if rng.random() < .3 else rng.randint(-(1 << 63), (1 << 63) - 1)) for _ in range(rng.randint(0, 9)))
+        cases.append(f'h_ok {lst(t, zraw)} {zraw(hash(t))}')
+        meta.append(('hash', t, hash(t)))
+        ck.case(('hash', t))
+        ck.count('corr:hash-tuple')
+    ok, failing, log = coqcases.run_cases('c01', 'PyHash', cases, extra=COQ_EXTRA, shard=100)
+    ck.oblige('correspondence: hash(atom), int_adjacency, _morgan (labels of the last round, result, KeyError), atoms_order, start atom and '
+              'first child of the writer == Coq model (exact ints, CPython tuple hash model)', ok and not failing, 'correspondence', log or repr([meta[i] for i in failing[:5]]))
+    ck.extra['correspondence_cases'] = len(cases)
+    ck.sample({'model_call': cases[0][:600], 'meta': repr(meta[0])[:300]})
+    ck.sample({'model_call': cases[-200][:600], 'meta': repr(meta[-200])[:300]})
+    bad = [meta[i] for i in failing]
+    return ok and not failing, bad, log, suspects
 
 
 def directed(ck, bad, suspects):
@@ -577,7 +899,8 @@ def directed(ck, bad, suspects):
 
 
 def run(ck):
-    ck.trusted += ['correspondence runner harness/checks/C01.py + harness/coqcases.py + harness/coqmol.py (prints live molecules as Coq terms)',
+    ck.trusted += ['translators tools/gen_elements.py, gen_smiles_tables.py, gen_stereo.py (tables the writer model imports)',
+                   'correspondence runner harness/checks/C01.py + harness/coqcases.py + harness/coqmol.py (prints live molecules as Coq terms)',
                    'CachedMethods shim harness/boot.py', 'CPython 3.12.1', 'Coq primitive 63-bit integers under vm_compute (model/MorganFast.v)',
                    'RDKit 2026.3 and the own colour-refinement oracle (search only)']
     ck.assumptions += [
@@ -596,9 +919,14 @@ def run(ck):
         'after thiele), re-spelled by format(m,"r") x2 and by RDKit (aromatic and Kekule spelling, kekule+thiele on both sides) -> str, ==, '
         'hash; atoms_order against an own exact colour refinement; non-trivial = more than one atom. Members of the documented gap classes '
         '(own symmetry oracle) are judged on the stereo-free string only; the undocumented bond-order-tie class is a recorded finding.')
-    proved = common.standard_proof_steps(ck, translators=[], extra_targets=['model/MorganFast.vo'])
+    import time
+    t0 = time.time()
+    proved = common.standard_proof_steps(ck, translators=['elements', 'smiles_tables', 'stereo'], extra_targets=['model/MorganFast.vo'])
+    t1 = time.time()
     tied, bad, log, suspects = correspondence(ck)
+    t2 = time.time()
     S = search(ck)
+    ck.extra['wall_split_s'] = {'proof_steps': round(t1 - t0, 1), 'correspondence': round(t2 - t1, 1), 'search': round(time.time() - t2, 1)}
     if not tied or suspects:
         directed(ck, bad, suspects)
         if not tied:
